@@ -214,15 +214,28 @@ Inductive amt :=
 | AmUnit (t : ntext) (sp : str) (n v : str) (p : oprep)     (* 2 kg of the 'flour' : unit NAME [n] spelled [v] *)
 | AmOf (t : ntext) (w : str) (pw : pword)                   (* 1/2 of the 'sauce' *)
 | AmPercent (t : ntext) (w : str) (p : oprep)               (* 50 % of 'sauce' *)
-| AmStar (t : ntext) (w : str).                             (* 1/2 * 'sauce' *)
+| AmStar (t : ntext) (w : str)                              (* 1/2 * 'sauce' *)
+| AmExplicit (t : ntext) (w0 : str) (u : option (str * N * str)) (w1 : str) (p : oprep).
+    (* "{" w0 number [sp QUOTED-unit] w1 "}" [preposition] :  {2 "sprigs"} of 'thyme';  u = Some (sp, quote, text) *)
 
 Definition amt_num (a : amt) : ntext :=
   match a with
-  | AmNum t | AmUnit t _ _ _ _ | AmOf t _ _ | AmPercent t _ _ | AmStar t _ => t
+  | AmNum t | AmUnit t _ _ _ _ | AmOf t _ _ | AmPercent t _ _ | AmStar t _ | AmExplicit t _ _ _ _ => t
   | AmRem _ _ => NTInt 0 0       (* unused *)
   end.
+Definition unit_text (u : option (str * N * str)) : str :=
+  match u with Some (sp, q, x) => sp ++ q :: x ++ [q] | None => [] end.
+(** The inside of an explicit quantity seen as a brace group (that is how a
+    NAME tried on it reads it). *)
+Definition explicit_bparts (t : ntext) (w0 : str) (u : option (str * N * str)) (w1 : str) : list bpart :=
+  (match w0 with [] => [] | _ => [BStr w0 []] end) ++ BNum t ::
+  (match unit_text u ++ w1 with [] => [] | T => [BStr T []] end).
 Definition amt_lead (a : amt) : str :=
-  match a with AmRem rw _ => rword_str rw | _ => ntext_str (amt_num a) end.
+  match a with
+  | AmRem rw _ => rword_str rw
+  | AmExplicit t w0 u w1 _ => 123 :: w0 ++ ntext_str t ++ unit_text u ++ w1 ++ [125]
+  | _ => ntext_str (amt_num a)
+  end.
 Definition amt_tail (a : amt) : str :=
   match a with
   | AmRem _ p => oprep_str p
@@ -231,6 +244,7 @@ Definition amt_tail (a : amt) : str :=
   | AmOf _ w pw => w ++ pword_str pw
   | AmPercent _ w p => w ++ 37 :: oprep_str p
   | AmStar _ w => w ++ [42]
+  | AmExplicit _ _ _ _ p => oprep_str p
   end.
 Definition print_amt (a : amt) : str := amt_lead a ++ amt_tail a.
 
@@ -245,6 +259,9 @@ Definition amt_val (a : amt) : amount :=
   | AmOf t w pw => AProp (PropVal (ntext_val t) false (w ++ pword_str pw))
   | AmPercent t w p => AProp (PropVal (percent_of (ntext_val t)) true (w ++ 37 :: oprep_str p))
   | AmStar t w => AProp (PropVal (ntext_val t) false (w ++ [42]))
+  | AmExplicit t _ u _ p =>
+      AQty (mkQ (ntext_val t) (match u with Some (_, _, x) => Some x | None => None end)
+                (match u with Some (sp, _, _) => sp | None => [] end) (oprep_str p))
   end.
 
 (** [m] is the word [w] in some letter case (as the regex engine's IGNORECASE sees it). *)
@@ -298,9 +315,20 @@ Definition rword_ok (rw : rword) : bool :=
   | RwLeftOver l w o => ci_wordb (s "left") l && hsp_run w && ci_wordb (s "over") o
   end.
 
+(** Characters of an explicit quantity's quoted unit: written raw, nothing
+    that needs an escape and nothing a brace group treats specially. *)
+Definition unit_char (q c : N) : bool := raw_ok_q q c && raw_ok_b c.
+
 Definition lead_ok (a : amt) : bool :=
   match a with
   | AmRem rw _ => rword_ok rw && naked_textb (rword_str rw)
+  | AmExplicit t w0 u w1 _ =>
+      ntext_ok t && hsp_run w0 && hsp_run w1
+      && match u with
+         | Some (sp, q, x) => hsp_run sp && ((q =? 34) || (q =? 39)) && forallb (unit_char q) x
+         | None => true
+         end
+      && bparts_ok (explicit_bparts t w0 u w1)
   | _ => ntext_ok (amt_num a)
   end.
 
@@ -314,7 +342,17 @@ Definition amt_ok (a : amt) : bool :=
      | AmPercent t w p => hsp_run w && oprep_ok p
                           && match ndiv (ntext_val t) (NInt 100) with NOk _ => true | _ => false end
      | AmStar _ w => hsp_run w
+     | AmExplicit _ _ _ _ p => oprep_ok p
      end.
+
+(** Fuel an amount needs (only a brace group does). *)
+Definition amt_cost (a : amt) : nat :=
+  match a with
+  | AmExplicit t w0 u w1 _ => seg_cost (SB (explicit_bparts t w0 u w1))
+  | _ => O
+  end.
+Definition ref_amt_cost (a : option (amt * str)) : nat :=
+  match a with Some (am, _) => amt_cost am | None => O end.
 
 (** ** Expressions, statements, recipes.  Whitespace annotations: [w..] are
     horizontal runs, [s..] arbitrary whitespace runs (line breaks allowed). *)
@@ -459,7 +497,7 @@ Definition acts_cost (acts : list (str * str * name)) : nat :=
 
 Fixpoint cost (e : pexpr) : nat :=
   match e with
-  | XRef _ nm => S (S (name_cost nm))
+  | XRef a nm => S (S (name_cost nm + ref_amt_cost a))
   | XStep nm _ _ first more _ _ =>
       S (S (name_cost nm + cost first + fold_right (fun p n => (cost (snd p) + n)%nat) O more))
   | XParen _ e acts _ => S (S (cost e + acts_cost acts))
